@@ -378,11 +378,16 @@ func (p *Persister) flushNow(ctx context.Context, batch map[string]persistData, 
 
 	defer tx.Discard()
 	for id, data := range batch {
-		err := data.storeFunc(ctx)
-		if err != nil {
-			p.logger.Err(ctx, err).
+		storeErr := data.storeFunc(ctx)
+		if storeErr != nil {
+			p.logger.Err(ctx, storeErr).
 				Str(log.ConnectorIDField, id).
 				Msg("error while saving connector")
+			if err == nil {
+				// Remember the failure: the callbacks below must not be told
+				// that the batch was persisted (the transaction is discarded).
+				err = storeErr
+			}
 		}
 	}
 	if err == nil {
